@@ -121,9 +121,9 @@ properties/C03.vos properties/C03.vok properties/C03.required_vos: properties/C0
 properties/C04.vo properties/C04.glob properties/C04.v.beautified properties/C04.required_vo: properties/C04.v gen/Params.vo model/Bytes.vo model/Crc32c.vo model/Sha1.vo model/Id.vo model/Node.vo model/BSearch.vo model/Closest.vo model/RTable.vo model/Lru.vo model/Tokens.vo model/Server.vo proofs/ServerProofs.vo
 properties/C04.vio: properties/C04.v gen/Params.vio model/Bytes.vio model/Crc32c.vio model/Sha1.vio model/Id.vio model/Node.vio model/BSearch.vio model/Closest.vio model/RTable.vio model/Lru.vio model/Tokens.vio model/Server.vio proofs/ServerProofs.vio
 properties/C04.vos properties/C04.vok properties/C04.required_vos: properties/C04.v gen/Params.vos model/Bytes.vos model/Crc32c.vos model/Sha1.vos model/Id.vos model/Node.vos model/BSearch.vos model/Closest.vos model/RTable.vos model/Lru.vos model/Tokens.vos model/Server.vos proofs/ServerProofs.vos
-properties/C15.vo properties/C15.glob properties/C15.v.beautified properties/C15.required_vo: properties/C15.v gen/Params.vo model/Bytes.vo model/Crc32c.vo model/Sha1.vo model/Id.vo model/Node.vo model/BSearch.vo model/Closest.vo model/RTable.vo model/Lru.vo model/Tokens.vo model/Server.vo proofs/ServerProofs.vo proofs/TokenProofs.vo
-properties/C15.vio: properties/C15.v gen/Params.vio model/Bytes.vio model/Crc32c.vio model/Sha1.vio model/Id.vio model/Node.vio model/BSearch.vio model/Closest.vio model/RTable.vio model/Lru.vio model/Tokens.vio model/Server.vio proofs/ServerProofs.vio proofs/TokenProofs.vio
-properties/C15.vos properties/C15.vok properties/C15.required_vos: properties/C15.v gen/Params.vos model/Bytes.vos model/Crc32c.vos model/Sha1.vos model/Id.vos model/Node.vos model/BSearch.vos model/Closest.vos model/RTable.vos model/Lru.vos model/Tokens.vos model/Server.vos proofs/ServerProofs.vos proofs/TokenProofs.vos
+properties/C15.vo properties/C15.glob properties/C15.v.beautified properties/C15.required_vo: properties/C15.v gen/Params.vo model/Bytes.vo model/Crc32c.vo model/Sha1.vo model/Id.vo model/Node.vo model/BSearch.vo model/Closest.vo model/RTable.vo model/Lru.vo model/Tokens.vo model/Server.vo proofs/ServerProofs.vo proofs/TokenProofs.vo proofs/TokenForge.vo
+properties/C15.vio: properties/C15.v gen/Params.vio model/Bytes.vio model/Crc32c.vio model/Sha1.vio model/Id.vio model/Node.vio model/BSearch.vio model/Closest.vio model/RTable.vio model/Lru.vio model/Tokens.vio model/Server.vio proofs/ServerProofs.vio proofs/TokenProofs.vio proofs/TokenForge.vio
+properties/C15.vos properties/C15.vok properties/C15.required_vos: properties/C15.v gen/Params.vos model/Bytes.vos model/Crc32c.vos model/Sha1.vos model/Id.vos model/Node.vos model/BSearch.vos model/Closest.vos model/RTable.vos model/Lru.vos model/Tokens.vos model/Server.vos proofs/ServerProofs.vos proofs/TokenProofs.vos proofs/TokenForge.vos
 proofs/BencodeProofs.vo proofs/BencodeProofs.glob proofs/BencodeProofs.v.beautified proofs/BencodeProofs.required_vo: proofs/BencodeProofs.v model/Bytes.vo model/Server.vo model/Bencode.vo
 proofs/BencodeProofs.vio: proofs/BencodeProofs.v model/Bytes.vio model/Server.vio model/Bencode.vio
 proofs/BencodeProofs.vos proofs/BencodeProofs.vok proofs/BencodeProofs.required_vos: proofs/BencodeProofs.v model/Bytes.vos model/Server.vos model/Bencode.vos
@@ -133,6 +133,9 @@ proofs/KrpcProofs.vos proofs/KrpcProofs.vok proofs/KrpcProofs.required_vos: proo
 proofs/RoundTrip.vo proofs/RoundTrip.glob proofs/RoundTrip.v.beautified proofs/RoundTrip.required_vo: proofs/RoundTrip.v model/Bytes.vo model/Id.vo model/Server.vo model/Bencode.vo model/Krpc.vo proofs/BencodeProofs.vo proofs/KrpcProofs.vo
 proofs/RoundTrip.vio: proofs/RoundTrip.v model/Bytes.vio model/Id.vio model/Server.vio model/Bencode.vio model/Krpc.vio proofs/BencodeProofs.vio proofs/KrpcProofs.vio
 proofs/RoundTrip.vos proofs/RoundTrip.vok proofs/RoundTrip.required_vos: proofs/RoundTrip.v model/Bytes.vos model/Id.vos model/Server.vos model/Bencode.vos model/Krpc.vos proofs/BencodeProofs.vos proofs/KrpcProofs.vos
+proofs/TokenForge.vo proofs/TokenForge.glob proofs/TokenForge.v.beautified proofs/TokenForge.required_vo: proofs/TokenForge.v gen/Params.vo model/Bytes.vo model/Crc32c.vo model/Node.vo model/Tokens.vo proofs/IdProofs.vo proofs/TokenProofs.vo proofs/KrpcProofs.vo
+proofs/TokenForge.vio: proofs/TokenForge.v gen/Params.vio model/Bytes.vio model/Crc32c.vio model/Node.vio model/Tokens.vio proofs/IdProofs.vio proofs/TokenProofs.vio proofs/KrpcProofs.vio
+proofs/TokenForge.vos proofs/TokenForge.vok proofs/TokenForge.required_vos: proofs/TokenForge.v gen/Params.vos model/Bytes.vos model/Crc32c.vos model/Node.vos model/Tokens.vos proofs/IdProofs.vos proofs/TokenProofs.vos proofs/KrpcProofs.vos
 properties/C10.vo properties/C10.glob properties/C10.v.beautified properties/C10.required_vo: properties/C10.v model/Bytes.vo model/Id.vo model/Server.vo model/Bencode.vo model/Krpc.vo model/Check10.vo proofs/BencodeProofs.vo proofs/KrpcProofs.vo proofs/RoundTrip.vo
 properties/C10.vio: properties/C10.v model/Bytes.vio model/Id.vio model/Server.vio model/Bencode.vio model/Krpc.vio model/Check10.vio proofs/BencodeProofs.vio proofs/KrpcProofs.vio proofs/RoundTrip.vio
 properties/C10.vos properties/C10.vok properties/C10.required_vos: properties/C10.v model/Bytes.vos model/Id.vos model/Server.vos model/Bencode.vos model/Krpc.vos model/Check10.vos proofs/BencodeProofs.vos proofs/KrpcProofs.vos proofs/RoundTrip.vos
